@@ -9,6 +9,8 @@ import z3
 from props import gen_common as G
 from symx.core import Truncated
 
+from props import alias_common as _alias
+
 ID = "C01"
 WANT = ("c01",)
 
@@ -97,6 +99,7 @@ def make_jobs(tier, seed, want):
                 out.append(dict(h="gen", gen="gen_wilson", r=r, c=c, kwargs={}, K=K, split=sp, max_seconds=3300))
     for j in out:
         j["want"] = list(want)
+    out.append(dict(_alias.ALIAS_JOB))  # results must not alias library state, arguments or each other (props/alias_common.py)
     out[0]["twin"] = True
     return out
 
@@ -173,6 +176,7 @@ def _replay_gen(job, inputs, notes):
 
 
 HARNESSES = {"gen": dict(run=_run_gen, replay=_replay_gen, patch=dict(np_modules=[], stub_ascii=True))}
+HARNESSES["alias"] = _alias.alias_harness("C01")
 
 META = dict(
     functions=["LatticeMazeGenerators.gen_dfs", "gen_prim", "gen_wilson", "gen_percolation", "gen_dfs_percolation", "_random_start_coord",
@@ -191,3 +195,5 @@ META = dict(
              "grid_shape passed as a tuple to gen_wilson (TypeError; documented type is an array)", "lattice_dim != 2"],
     assumptions=["fixed pre-history: before every instance each generator has already run once on another shape with other arguments in the same process", "draw contracts: random.choice/randint and np.random.randint/choice return any value in range, np.random.rand any real in [0,1)"],
 )
+
+META.setdefault("degenerate", {})["alias"] = _alias.ALIAS_META
